@@ -86,6 +86,8 @@ type world struct {
 	composeErr error
 	fnOverride func(context.Context, string, *fnv1.RunFunctionRequest) (*fnv1.RunFunctionResponse, error)
 	rfail      map[string]bool // PT: templates that cannot be rendered right now
+	missed     map[string]bool // composed resources the cache missed in this reconcile
+	ver        int             // the apiVersion the desired resources are written at: ex.org/v<ver>
 }
 
 func (w *world) idOf(name string) string {
@@ -216,6 +218,11 @@ func (w *world) classify(c *simapi.Call) string {
 		return "pre:" + verb + ":xr"
 	case "Thing":
 		if c.Actor != "xr" {
+			// the observer's live read after the cache missed the resource (model: "uget"); its other fallback reads
+			// (the resource really is gone) are not modelled
+			if verb == "get" && w.missed[c.Key.Name] {
+				return "uget:" + w.idOf(c.Key.Name)
+			}
 			return "pre:uncached"
 		}
 		switch verb {
@@ -251,7 +258,7 @@ func (w *world) onEvent(e *simapi.Event) {
 	}
 	// an injected error / conflict on a read of the observation phase is an observation failure
 	// (only reads of *referenced* resources count: a failed name-availability probe is not an observation)
-	if e.Injected != "" && e.Injected != "crashAfter" && e.Injected != "crashBefore" && !w.inCompose && kind == "cd" && e.Verb == "get" && w.mode == "Pipeline" {
+	if e.Injected != "" && e.Injected != "cacheMiss" && e.Injected != "crashAfter" && e.Injected != "crashBefore" && !w.inCompose && kind == "cd" && e.Verb == "get" && w.mode == "Pipeline" {
 		for _, r := range w.start["refs"].([]any) {
 			if r == target {
 				w.pfail = true
@@ -297,7 +304,7 @@ func (w *world) setTemplates() {
 		for _, n := range w.want {
 			res = append(res, map[string]any{
 				"name": n,
-				"base": map[string]any{"apiVersion": "ex.org/v1", "kind": "Thing", "spec": map[string]any{"param": n}},
+				"base": map[string]any{"apiVersion": fmt.Sprintf("ex.org/v%d", w.ver), "kind": "Thing", "spec": map[string]any{"param": n}},
 				"patches": []any{
 					map[string]any{"type": "FromCompositeFieldPath", "fromFieldPath": "spec.size", "toFieldPath": "spec.size"},
 					// a Required patch: the template cannot be rendered while the XR field is missing (env step "rfail")
@@ -336,6 +343,17 @@ func (w *world) env(e replay.Entry) {
 				}
 			}
 		})
+	case "grab":
+		// another owner replaces the XR as the controller of the composed resource
+		w.s.Mutate(cdKey(w.rev[e.O]), func(u *unstructured.Unstructured) {
+			u.SetOwnerReferences([]metav1.OwnerReference{{APIVersion: "ex.org/v1", Kind: "XThing", Name: "other-xr", UID: "foreign-uid", Controller: ptr.To(true)}})
+		})
+	case "ver":
+		// the desired resources are now written at the other served version of their kind
+		w.ver = 3 - w.ver
+		if w.mode == "PT" {
+			w.setTemplates()
+		}
 	case "remove":
 		w.s.Remove(cdKey(w.rev[e.O]))
 		if w.al != nil {
@@ -364,7 +382,7 @@ func orNone(s string) string {
 func (w *world) desiredFor(names []string) map[string]*fnv1.Resource {
 	out := map[string]*fnv1.Resource{}
 	for _, n := range names {
-		body := map[string]any{"apiVersion": "ex.org/v1", "kind": "Thing", "spec": map[string]any{"param": n}}
+		body := map[string]any{"apiVersion": fmt.Sprintf("ex.org/v%d", w.ver), "kind": "Thing", "spec": map[string]any{"param": n}}
 		if n == w.fixed {
 			body["metadata"] = map[string]any{"name": "fixed"}
 		}
@@ -442,7 +460,7 @@ func newWorld(tw *trace.Writer, id string, init map[string]any) *world {
 	_ = v1.AddToScheme(sch)
 	_ = corev1.AddToScheme(sch)
 	s := simapi.NewServer(sch)
-	w := &world{s: s, tw: tw, scenID: id, ids: map[string]string{}, rev: map[string]string{}}
+	w := &world{s: s, tw: tw, scenID: id, ids: map[string]string{}, rev: map[string]string{}, ver: 1}
 	w.c = simapi.NewClient(s, "xr")
 	w.uc = w.c.Sibling("xr-uncached")
 	w.mode, _ = init["mode"].(string)
@@ -526,7 +544,11 @@ func newWorld(tw *trace.Writer, id string, init map[string]any) *world {
 		if w.mode == "PT" && !w.inCompose && (strings.HasPrefix(abs, "update:o") || abs == "update:xr" || strings.HasPrefix(abs, "create:") || strings.HasPrefix(abs, "patch:")) {
 			w.inCompose = true
 		}
-		return w.al.OnCall(abs, cl.Write)
+		d := w.al.OnCall(abs, cl.Write)
+		if d == simapi.CacheMiss {
+			w.missed[cl.Key.Name] = true
+		}
+		return d
 	}
 	w.c.Intercept, w.uc.Intercept = icpt, icpt
 	s.OnEvent = w.onEvent
@@ -546,6 +568,7 @@ func (w *world) reconcile(al *replay.Aligner, sw *sweep) int {
 	w.al = al
 	w.pfail, w.failKind, w.inCompose, w.gcd, w.fnCalls, w.reqRound = false, "", false, nil, 0, 0
 	w.vanished = nil
+	w.missed = map[string]bool{}
 	w.composed, w.composeErr = false, nil
 	w.quiet = true
 	w.wantRec = append([]string(nil), w.want...)
@@ -727,7 +750,10 @@ func main() {
 			}
 		}
 		vs := []simapi.Decision{fails[i%2]}
-		if hasFail && *variants == "all" {
+		_ = variants // (kept for the command line of the checks: both realisations are always run now)
+		if hasFail {
+			// a failure that ends the reconcile is realised both as a dead process and as a Conflict, which the code
+			// gets to see and must not swallow
 			vs = fails
 		}
 		for _, v := range vs {
